@@ -198,7 +198,14 @@ impl Prop for C17 {
         Ok(())
     }
     fn witness(&self, _ctx: &Ctx, f: &crate::findings::Finding) -> Result<bool, Fail> {
-        // witness: {"kind":"memo","source":…, "capacity": n}: still fails iff result at capacity differs from unbounded
+        memo_witness(f)
+    }
+}
+
+/// witness {"kind":"memo","source":…, "capacity": n}: still fails iff the result at that capacity differs from the
+/// unbounded table's and the two agree once the recursion flags are part of the key
+pub fn memo_witness(f: &crate::findings::Finding) -> Result<bool, Fail> {
+    {
         if f.witness["kind"].as_str() != Some("memo") {
             return Ok(false);
         }
